@@ -342,7 +342,8 @@ impl Prop for C14 {
                         }
                         let r = fs.resolve(path, true);
                         let want_full = std::path::Path::new(&top).join(want);
-                        if !cx.check(r.as_deref() == Some(want_full.as_path()), "fs-localized-resolve-same-location", || format!("resolve -> {r:?}, expected {want_full:?}")) {
+                        let same_file = r.as_ref().map(|p| std::fs::canonicalize(p).ok() == std::fs::canonicalize(&want_full).ok()).unwrap_or(false);
+                        if !cx.check(same_file, "fs-localized-resolve-same-location", || format!("resolve -> {r:?}, expected {want_full:?}")) {
                             return;
                         }
                         // (skipped when the localized location lies below the unlocalized path, e.g. "m" -> "m/f_" or "m/E" -> "m/E/E")
